@@ -1,5 +1,6 @@
 import Driver.Util
 import SonicModel.Impl.Get
+import SonicModel.Impl.GetU
 namespace Driver
 open Sonic Sonic.Impl Sonic.Spec
 
@@ -37,7 +38,8 @@ def c10 (args : List String) : String :=
         | _ => true
       let wf := (Spec.document false buf).isSome && Spec.utf8Valid buf
       let wfs := (Spec.document true buf).isSome && Spec.utf8Valid buf
-      s!"m.get={gresStr m} m.get_str={gresStr ms} spec={lookStr sp} pre8={ar pre8} wf={ar wf} wfs={ar wfs}"
+      let mu := Sonic.GetU.getUnchecked buf 0 path
+      s!"m.get={gresStr m} m.get_str={gresStr ms} m.getu={gresStr mu} spec={lookStr sp} pre8={ar pre8} wf={ar wf} wfs={ar wfs}"
     | _, _ => "bad-args"
   | _ => "bad-args"
 
